@@ -2394,6 +2394,16 @@ func (e *RaceEngine) mayRunDuringD(a RAccess, r *Role, depth int) (bool, string)
 		}
 	}
 	if c := e.childOnPath(s, r); c != nil {
+		if a.Key.Owner == "local" && c.Go != nil && a.Instr != nil && a.Instr.Parent() == c.Go.Parent() {
+			// `v := v` before `go func(){ use v }()`: the variable is made, written and handed to the
+			// goroutine in one pass; a later pass makes a new variable before it writes again
+			if al := e.capAlloc[a.Key]; al != nil && al.Parent() == c.Go.Parent() && InstrDominates(al, a.Instr) && InstrDominates(a.Instr, c.Go) {
+				again := ReachAvoiding(c.Go.Parent(), c.Go, func(x ssa.Instruction) bool { return x == ssa.Instruction(al) }, func(x ssa.Instruction) bool { return x == a.Instr })
+				if len(again) == 0 {
+					return false, "captured local written before the go statement of the same pass (a new variable per pass)"
+				}
+			}
+		}
 		if c.Join != nil {
 			if e.window[c.Go][a.Instr] || e.winFn[c.Go][a.Fn] {
 				return true, ""
